@@ -1,10 +1,15 @@
 (* C17 — address-prefix items (APL, ECS) use the RFC forms in both directions.
    Input side: every RFC 3123 / RFC 7871 form is accepted (0..size address octets, missing octets
    zero), everything else is rejected with the documented error, nothing panics.
-   Output side: family, prefix lengths and negation are preserved; the address is cut to
-   min(prefix/8 + 1, size) octets — NOT the RFC counts (known findings KF2 for ECS, KF3 for APL);
-   the emitted count is characterised exactly, the round trip holds, the RFC counts are refuted. *)
-From DNS Require Import Model.Values Model.Dec Model.Enc Proofs.DecBase Proofs.C12
+   Output side: family, prefix lengths and negation are preserved, and the address now follows the
+   RFCs: it is written up to its last non-zero octet ("significant" octets) but with at least a minimum
+   length.  APL (minimum 0): never a trailing zero octet — the RFC 3123 count for EVERY valid item
+   (known finding KF3 is repaired).  ECS (minimum ceil(source/8)): exactly the ceil(source/8) octets of
+   RFC 7871 whenever no non-zero address octet lies beyond them.  The only remaining deviation (known
+   finding KF2, narrowed) are ECS values whose address has a non-zero octet beyond ceil(source/8) —
+   possible only with scope > source — which are written in full so that no set bit is lost.
+   The emitted count is characterised exactly and the round trip holds. *)
+From DNS Require Import Proofs.EncTotal Model.Values Model.Dec Model.Enc Proofs.DecBase Proofs.C12
   Proofs.C17Dec Proofs.C17Enc Proofs.C17 Proofs.C17Rt Proofs.C17Ref Proofs.C17Grid.
 
 (* the vocabulary of the statements below, spelled out *)
@@ -17,18 +22,30 @@ Theorem C17_defs :
   (forall (fam : N) (a : bytes), fam = 1 \/ fam = 2 ->
      zfill fam a = {| a_fam := fam; a_oct := a ++ zeros (N.to_nat (fam_size fam - lenN a)) |}) /\
   (forall neg : bool, negbit neg = if neg then 128 else 0) /\
-  (forall p size : N, emit_count p size = N.min (p / 8 + 1) size) /\
+  (forall oct : bytes, addr_significant oct = rfc3123_count oct) /\
+  (forall src pfx : N, ecs_minimum_length src pfx = (src + 7) / 8) /\
+  (forall e : ecs, ecs_known_class e <-> (e_src e + 7) / 8 < addr_significant (a_oct (e_addr e))) /\
   (forall s : dst, vec_end s = {| d_rest := []; d_off := d_len s; d_len := d_len s;
                                   d_cost := d_cost s + (d_len s - d_off s) |}) /\
   (forall (a : addr) (p : N), prefix_ok a p <->
      p <= 8 * addr_size a /\ forall i, p <= i < 8 * addr_size a -> addr_bit (a_oct a) i = false) /\
-  (forall src : N, rfc7871_count src = (src + 7) / 8).
+  (forall src : N, rfc7871_count src = (src + 7) / 8) /\
+  (forall e : ecs, ecs_body e =
+     u16b (a_fam (e_addr e)) ++ [e_src e mod 256] ++ [e_scope e mod 256] ++
+     takeN (N.max (addr_significant (a_oct (e_addr e))) ((e_src e + 7) / 8)) (a_oct (e_addr e))) /\
+  (* the number of address octets, read off the encoder's output *)
+  (forall i : apitem, apl_emitted i =
+     match enc_apitem i e_init with EOk _ st => Some (lenN (e_buf st) - 4) | _ => None end) /\
+  (forall e : ecs, ecs_emitted e =
+     match enc_ecs e e_init with EOk _ st => Some (lenN (e_buf st) - 8) | _ => None end).
 Proof.
   split; [reflexivity|]. split; [reflexivity|]. split; [reflexivity|]. split; [reflexivity|].
   split; [reflexivity|].
   split; [intros fam a H; unfold zfill; rewrite (fam_tag_id fam H); reflexivity|].
-  split; [reflexivity|]. split; [reflexivity|]. split; [reflexivity|].
-  split; [intros a p; apply iff_refl|reflexivity].
+  split; [reflexivity|]. split; [exact significant_rfc3123|]. split; [exact ecs_minimum_length_eq|].
+  split; [intros e; apply iff_refl|]. split; [reflexivity|].
+  split; [intros a p; apply iff_refl|]. split; [reflexivity|]. split; [reflexivity|].
+  split; reflexivity.
 Qed.
 Print Assumptions C17_defs.
 
@@ -107,51 +124,99 @@ Theorem C17_accept_ecs : forall (s : dst) (fh fl src scope : N) (a : bytes),
 Proof. exact accept_ecs. Qed.
 Print Assumptions C17_accept_ecs.
 
-(* ---- output side: the emitted octet count (KF2, KF3: min(p/8 + 1, size), not the RFC count) ---- *)
+(* ---- output side: the emitted octets ---- *)
 
-(* the loops of Encoder::rr_address_ipv4 / rr_address_ipv6: exactly min(p/8+1, size) octets, no panic *)
-Theorem C17_emit_count : forall (oct : bytes) (p : N),
-  (lenN oct = 4 ->
-     addr_prefix_loop OP_enc_prefix4 ENC_PREFIX_STEP4 oct p = Ok (takeN (N.min (p / 8 + 1) 4) oct)) /\
-  (lenN oct = 16 ->
-     addr_prefix_loop OP_enc_prefix6 ENC_PREFIX_STEP6 oct p = Ok (takeN (N.min (p / 8 + 1) 16) oct)).
-Proof. exact emit_count_loop. Qed.
-Print Assumptions C17_emit_count.
+(* addr_significant (the encoder's search for the last non-zero octet) is "index of the last non-zero
+   octet + 1", 0 for the all-zero address: every octet from there on is zero, the one before is not *)
+Theorem C17_significant_def : forall l : bytes,
+  addr_significant l <= lenN l /\
+  forallb (N.eqb 0) (dropN (addr_significant l) l) = true /\
+  (addr_significant l = 0 \/ exists x, nthN (addr_significant l - 1) l = Some x /\ x <> 0).
+Proof. exact significant_def. Qed.
+Print Assumptions C17_significant_def.
 
-(* Encoder::rr_address_with_prefix appends exactly those octets *)
-Theorem C17_emit_count_address : forall (a : addr) (p : N) (st : est), addr_wf a ->
-  let cnt := N.min (p / 8 + 1) (addr_size a) in
-  rr_address_with_prefix a p st =
+(* Encoder::rr_address_with_length appends exactly max(significant, minimum) octets, no panic *)
+Theorem C17_emit_address : forall (a : addr) (m : N) (st : est), addr_wf a -> m <= addr_size a ->
+  let cnt := N.max (addr_significant (a_oct a)) m in
+  rr_address_with_length a m st =
     EOk tt {| e_buf := e_buf st ++ takeN cnt (a_oct a); e_idx := e_idx st; e_names := e_names st |} /\
   lenN (takeN cnt (a_oct a)) = cnt.
-Proof. exact emit_count_address. Qed.
-Print Assumptions C17_emit_count_address.
+Proof. exact emit_address. Qed.
+Print Assumptions C17_emit_address.
 
-(* Encoder::rr_apl_apitem from any encoder state: family, prefix, N|count, count address octets;
-   never APLAddressLength for a valid item; compression index and name log untouched *)
-Theorem C17_emit_count_apl : forall (i : apitem) (st : est), apitem_inv i ->
-  let cnt := N.min (i_prefix i / 8 + 1) (addr_size (i_addr i)) in
+(* Encoder::rr_apl_apitem from any encoder state: family, prefix, N|count, count address octets with
+   count = significant octets; never APLAddressLength for a valid item; compression index and name log
+   untouched; the count never exceeds the octets that hold the prefix bits *)
+Theorem C17_emit_apl : forall (i : apitem) (st : est), apitem_inv i ->
+  let cnt := addr_significant (a_oct (i_addr i)) in
   enc_apitem i st =
     EOk tt {| e_buf := e_buf st ++ u16b (a_fam (i_addr i)) ++ [i_prefix i mod 256]
                         ++ [(if i_neg i then 128 else 0) + cnt] ++ takeN cnt (a_oct (i_addr i));
               e_idx := e_idx st; e_names := e_names st |} /\
   lenN (takeN cnt (a_oct (i_addr i))) = cnt /\
-  i_prefix i mod 256 = i_prefix i /\ cnt < 128.
-Proof. exact emit_count_apitem. Qed.
-Print Assumptions C17_emit_count_apl.
+  i_prefix i mod 256 = i_prefix i /\ cnt < 128 /\ cnt <= (i_prefix i + 7) / 8.
+Proof. exact emit_apitem. Qed.
+Print Assumptions C17_emit_apl.
+
+(* APL: the emitted count IS the RFC 3123 count, for every valid item (KF3 repaired) ... *)
+Theorem C17_emit_rfc_apl : forall i : apitem, apitem_inv i ->
+  apl_emitted i = Some (rfc3123_count (a_oct (i_addr i))).
+Proof. exact emit_rfc_apl. Qed.
+Print Assumptions C17_emit_rfc_apl.
+
+(* ... in words: the last emitted address octet, if any, is not zero *)
+Theorem C17_emit_apl_no_trailing_zero : forall i : apitem, apitem_inv i ->
+  let w := takeN (addr_significant (a_oct (i_addr i))) (a_oct (i_addr i)) in
+  w = [] \/ exists x, nthN (lenN w - 1) w = Some x /\ x <> 0.
+Proof. exact emit_apl_no_trailing_zero. Qed.
+Print Assumptions C17_emit_apl_no_trailing_zero.
 
 (* Encoder::rr_edns_ecs: code 8, length 4 + count, family, source, scope, count address octets with
-   count = min(max(source, scope)/8 + 1, size) *)
-Theorem C17_emit_count_ecs : forall (e : ecs) (st : est), ecs_inv e ->
-  let cnt := N.min (N.max (e_src e) (e_scope e) / 8 + 1) (addr_size (e_addr e)) in
+   count = max(significant octets, ceil(source/8)) *)
+Theorem C17_emit_ecs : forall (e : ecs) (st : est), ecs_inv e ->
+  let cnt := N.max (addr_significant (a_oct (e_addr e))) ((e_src e + 7) / 8) in
   enc_ecs e st =
     EOk tt {| e_buf := e_buf st ++ u16b 8 ++ u16b (4 + cnt) ++ u16b (a_fam (e_addr e))
                         ++ [e_src e mod 256] ++ [e_scope e mod 256] ++ takeN cnt (a_oct (e_addr e));
               e_idx := e_idx st; e_names := e_names st |} /\
   lenN (takeN cnt (a_oct (e_addr e))) = cnt /\
   e_src e mod 256 = e_src e /\ e_scope e mod 256 = e_scope e.
-Proof. exact emit_count_ecs. Qed.
-Print Assumptions C17_emit_count_ecs.
+Proof. exact emit_ecs. Qed.
+Print Assumptions C17_emit_ecs.
+
+(* ECS: the emitted count IS the RFC 7871 count ceil(source/8) outside the known class (a non-zero
+   address octet beyond ceil(source/8)) *)
+Theorem C17_emit_rfc_ecs : forall e : ecs, ecs_inv e -> ~ ecs_known_class e ->
+  ecs_emitted e = Some (rfc7871_count (e_src e)).
+Proof. exact emit_rfc_ecs. Qed.
+Print Assumptions C17_emit_rfc_ecs.
+
+(* with scope <= source the class is empty: no bit at or beyond the source prefix is set *)
+Theorem C17_emit_rfc_ecs_scope_le : forall e : ecs, ecs_inv e -> e_scope e <= e_src e ->
+  ecs_emitted e = Some (rfc7871_count (e_src e)).
+Proof. exact emit_rfc_ecs_scope_le. Qed.
+Print Assumptions C17_emit_rfc_ecs_scope_le.
+
+Theorem C17_known_class_needs_scope : forall e : ecs, ecs_inv e -> ecs_known_class e -> e_src e < e_scope e.
+Proof. exact known_class_needs_scope. Qed.
+Print Assumptions C17_known_class_needs_scope.
+
+(* KNOWN FINDING KF2 (narrowed): 10.1.0.0 with source 8, scope 24 is a valid value of the class; it is
+   written with two address octets where RFC 7871 mandates ceil(8/8) = 1; hence the RFC 7871 rule does
+   not hold of ALL valid values *)
+Theorem C17_emit_rfc_ecs_known_refuted :
+  ecs_inv w_ecs_scope /\ ecs_known_class w_ecs_scope /\
+  ecs_emitted w_ecs_scope = Some 2 /\ rfc7871_count 8 = 1 /\
+  ~ (forall e, ecs_inv e -> ecs_emitted e = Some (rfc7871_count (e_src e))).
+Proof. exact emit_rfc_ecs_known_refuted. Qed.
+Print Assumptions C17_emit_rfc_ecs_known_refuted.
+
+(* the witness, spelled out *)
+Example C17_witnesses :
+  w_ecs_scope = {| e_src := 8; e_scope := 24; e_addr := {| a_fam := 1; a_oct := [10; 1; 0; 0] |} |} /\
+  enc_ecs w_ecs_scope e_init =
+    EOk tt {| e_buf := [0; 8; 0; 6; 0; 1; 8; 24; 10; 1]; e_idx := []; e_names := [] |}.
+Proof. vm_compute. split; reflexivity. Qed.
 
 (* ---- round trip: the octets cut off are zero, so decoding the output returns the value itself ---- *)
 Theorem C17_emit_roundtrip : forall (i : apitem) (st : est), apitem_inv i ->
@@ -164,7 +229,7 @@ Proof. exact emit_roundtrip. Qed.
 Print Assumptions C17_emit_roundtrip.
 
 Theorem C17_emit_roundtrip_ecs : forall (e : ecs) (st : est), ecs_inv e ->
-  let cnt := emit_count (ecs_prefix e) (addr_size (e_addr e)) in
+  let cnt := N.max (addr_significant (a_oct (e_addr e))) ((e_src e + 7) / 8) in
   enc_ecs e st = EOk tt {| e_buf := e_buf st ++ u16b 8 ++ u16b (4 + cnt) ++ ecs_body e;
                            e_idx := e_idx st; e_names := e_names st |} /\
   lenN (ecs_body e) = 4 + cnt /\
@@ -173,59 +238,6 @@ Theorem C17_emit_roundtrip_ecs : forall (e : ecs) (st : est), ecs_inv e ->
                              d_cost := d_cost s + (4 + cnt) |}.
 Proof. exact emit_roundtrip_ecs_wire. Qed.
 Print Assumptions C17_emit_roundtrip_ecs.
-
-(* ---- the RFC counts are refuted ---- *)
-
-(* rfc3123_count is "index of the last non-zero octet + 1" *)
-Theorem C17_rfc3123_count_def : forall l : bytes,
-  rfc3123_count l <= lenN l /\
-  forallb (N.eqb 0) (dropN (rfc3123_count l) l) = true /\
-  (rfc3123_count l = 0 \/ exists x, nthN (rfc3123_count l - 1) l = Some x /\ x <> 0).
-Proof. exact rfc3123_count_spec. Qed.
-Print Assumptions C17_rfc3123_count_def.
-
-Theorem C17_emit_rfc_refuted :
-  (apitem_inv w_apl24 /\
-   enc_apitem w_apl24 e_init = EOk tt {| e_buf := [0; 1; 24; 4; 10; 0; 0; 0]; e_idx := []; e_names := [] |} /\
-   apl_emitted w_apl24 = Some 4 /\ rfc3123_count (a_oct (i_addr w_apl24)) = 1) /\
-  (apitem_inv w_apl0 /\
-   enc_apitem w_apl0 e_init = EOk tt {| e_buf := [0; 1; 0; 1; 0]; e_idx := []; e_names := [] |} /\
-   apl_emitted w_apl0 = Some 1 /\ rfc3123_count (a_oct (i_addr w_apl0)) = 0) /\
-  (ecs_inv w_ecs24 /\
-   enc_ecs w_ecs24 e_init =
-     EOk tt {| e_buf := [0; 8; 0; 8; 0; 1; 24; 0; 10; 0; 0; 0]; e_idx := []; e_names := [] |} /\
-   ecs_emitted w_ecs24 = Some 4 /\ rfc7871_count (e_src w_ecs24) = 3) /\
-  (ecs_inv w_ecs0 /\
-   enc_ecs w_ecs0 e_init = EOk tt {| e_buf := [0; 8; 0; 5; 0; 1; 0; 0; 0]; e_idx := []; e_names := [] |} /\
-   ecs_emitted w_ecs0 = Some 1 /\ rfc7871_count (e_src w_ecs0) = 0) /\
-  (ecs_inv w_ecs_scope /\ ecs_emitted w_ecs_scope = Some 4 /\ rfc7871_count (e_src w_ecs_scope) = 1) /\
-  ~ (forall i, apitem_inv i -> apl_emitted i = Some (rfc3123_count (a_oct (i_addr i)))) /\
-  ~ (forall e, ecs_inv e -> ecs_emitted e = Some (rfc7871_count (e_src e))).
-Proof. exact emit_rfc_refuted. Qed.
-Print Assumptions C17_emit_rfc_refuted.
-
-(* the witnesses, spelled out *)
-Example C17_witnesses :
-  w_apl24 = {| i_prefix := 24; i_neg := false; i_addr := {| a_fam := 1; a_oct := [10; 0; 0; 0] |} |} /\
-  w_apl0 = {| i_prefix := 0; i_neg := false; i_addr := {| a_fam := 1; a_oct := [0; 0; 0; 0] |} |} /\
-  w_ecs24 = {| e_src := 24; e_scope := 0; e_addr := {| a_fam := 1; a_oct := [10; 0; 0; 0] |} |} /\
-  w_ecs0 = {| e_src := 0; e_scope := 0; e_addr := {| a_fam := 1; a_oct := [0; 0; 0; 0] |} |} /\
-  w_ecs_scope = {| e_src := 8; e_scope := 24; e_addr := {| a_fam := 1; a_oct := [10; 0; 0; 0] |} |}.
-Proof. split; [|split; [|split; [|split]]]; reflexivity. Qed.
-
-(* ECS in general (scope <= source <= 8*size): the emitted count is the RFC 7871 count or one more,
-   and it IS the RFC count exactly when the source prefix is not a multiple of 8 or is the full size *)
-Theorem C17_emit_rfc_ecs_general : forall src scope size : N, scope <= src -> src <= 8 * size ->
-  (rfc7871_count src <= emit_count (N.max src scope) size <= rfc7871_count src + 1) /\
-  (emit_count (N.max src scope) size = rfc7871_count src <-> src mod 8 <> 0 \/ src = 8 * size).
-Proof. exact ecs_count_vs_rfc. Qed.
-Print Assumptions C17_emit_rfc_ecs_general.
-
-(* APL in general: never fewer octets than RFC 3123 mandates (no non-zero octet is cut off) *)
-Theorem C17_emit_rfc_apl_general : forall i : apitem, apitem_inv i ->
-  rfc3123_count (a_oct (i_addr i)) <= emit_count (i_prefix i) (addr_size (i_addr i)).
-Proof. exact apl_count_ge_rfc. Qed.
-Print Assumptions C17_emit_rfc_apl_general.
 
 (* ---- complete finite grids (by computation) ---- *)
 
@@ -314,11 +326,22 @@ Example C17_ex_ecs :
         {| d_rest := []; d_off := 8; d_len := 8; d_cost := 8 |}.
 Proof. vm_compute. split; reflexivity. Qed.
 
-(* output: !192.0.2.0/24 is written with FOUR address octets (RFC 3123: three);
-   192.0.8.0/21 with three (here min(21/8 + 1, 4) = 3 happens to be the RFC count) *)
+(* output: !192.0.2.0/24 is written with THREE address octets (RFC 3123), 10.0.0.0/24 with one,
+   0.0.0.0/0 with none *)
 Example C17_ex_emit :
   enc_apitem {| i_prefix := 24; i_neg := true; i_addr := {| a_fam := 1; a_oct := [192; 0; 2; 0] |} |} e_init =
-    EOk tt {| e_buf := [0; 1; 24; 132; 192; 0; 2; 0]; e_idx := []; e_names := [] |} /\
-  enc_apitem {| i_prefix := 21; i_neg := false; i_addr := {| a_fam := 1; a_oct := [192; 0; 8; 0] |} |} e_init =
-    EOk tt {| e_buf := [0; 1; 21; 3; 192; 0; 8]; e_idx := []; e_names := [] |}.
+    EOk tt {| e_buf := [0; 1; 24; 131; 192; 0; 2]; e_idx := []; e_names := [] |} /\
+  enc_apitem {| i_prefix := 24; i_neg := false; i_addr := {| a_fam := 1; a_oct := [10; 0; 0; 0] |} |} e_init =
+    EOk tt {| e_buf := [0; 1; 24; 1; 10]; e_idx := []; e_names := [] |} /\
+  enc_apitem {| i_prefix := 0; i_neg := false; i_addr := {| a_fam := 1; a_oct := [0; 0; 0; 0] |} |} e_init =
+    EOk tt {| e_buf := [0; 1; 0; 0]; e_idx := []; e_names := [] |}.
+Proof. vm_compute. split; [|split]; reflexivity. Qed.
+
+(* ECS: 10.0.0.0 source 24 scope 0 is written with the three octets of RFC 7871 (the minimum length,
+   although only one octet is significant); source 0 with none *)
+Example C17_ex_emit_ecs :
+  enc_ecs {| e_src := 24; e_scope := 0; e_addr := {| a_fam := 1; a_oct := [10; 0; 0; 0] |} |} e_init =
+    EOk tt {| e_buf := [0; 8; 0; 7; 0; 1; 24; 0; 10; 0; 0]; e_idx := []; e_names := [] |} /\
+  enc_ecs {| e_src := 0; e_scope := 0; e_addr := {| a_fam := 1; a_oct := [0; 0; 0; 0] |} |} e_init =
+    EOk tt {| e_buf := [0; 8; 0; 4; 0; 1; 0; 0]; e_idx := []; e_names := [] |}.
 Proof. vm_compute. split; reflexivity. Qed.
